@@ -11,7 +11,7 @@ var apiFuncs = map[string]bool{
 	"vInt": true, "vRange": true, "vBytes": true, "vString": true, "vChoose": true,
 	"vAssume": true, "vAssert": true, "vFail": true, "vCover": true, "vLabel": true,
 	"vNote": true, "vEngine": true, "vStop": true, "vIsConcrete": true, "vConcretize": true,
-	"vFresh": true, "vParam": true,
+	"vFresh": true, "vParam": true, "vAnd": true, "vOr": true,
 }
 
 func (ex *Exec) callAPI(fr *frame, name string, args []value) value {
@@ -126,6 +126,18 @@ func (ex *Exec) callAPI(fr *frame, name string, args []value) value {
 	case "vConcretize":
 		x := args[0].(*Term)
 		return tt.Const(x.W, ex.concretize(x, "vConcretize"))
+	case "vAnd":
+		r := tt.True
+		for _, x := range args[0].([]value) {
+			r = tt.BAnd(r, x.(*Term))
+		}
+		return r
+	case "vOr":
+		r := tt.False
+		for _, x := range args[0].([]value) {
+			r = tt.BOr(r, x.(*Term))
+		}
+		return r
 	case "vFresh":
 		// unconstrained value of the same width as the argument
 		x := args[0].(*Term)
